@@ -697,6 +697,59 @@ func simGenAudit(thorough bool, r *rand.Rand) []Case {
 				in.Hint = pick(r, simHints)
 				cs = append(cs, simFinish("zero-share-"+proto, in))
 			}
+			// ---- coincidences inside the Horner evaluation of the public share of one participant (evaluation point
+			// x): x*A_t = A_{t-1} (the first addition is a doubling), x*A_t = -A_{t-1} (the accumulator passes
+			// through the point at infinity), x*acc_1 = A_0 (the last addition is a doubling).  The dealer is
+			// honest otherwise: everybody must accept it ----
+			for k := 0; k < 3; k++ {
+				n := 4 + r.IntN(3)
+				t := 1 + r.IntN((n-1)/2)
+				if k == 1 && t < 2 {
+					t, n = 2, 5
+				}
+				b := r.IntN(n)
+				in := simBase(r, proto, n, t, b, []int{b})
+				victim := in.Honest[r.IntN(len(in.Honest))]
+				x := big.NewInt(int64(victim + 1))
+				a := c10RandPoly(r, t)
+				switch k {
+				case 0:
+					a[t-1] = dkgMod(new(big.Int).Mul(x, a[t]))
+				case 1:
+					a[t-1] = dkgMod(new(big.Int).Neg(new(big.Int).Mul(x, a[t])))
+				case 2:
+					rest := append([]*big.Int{new(big.Int)}, a[1:]...)
+					a[0] = dkgPeval(rest, int64(victim+1)) // = x * acc_1
+				}
+				in.Byz[0].Poly = simPolyStrings(a)
+				in.ActsHonest, in.MustKeys = []int{b}, true
+				in.Hint = pick(r, simHints)
+				cs = append(cs, simFinish("horner-coincidence-"+proto, in))
+			}
+		}
+		// ---- mixed complaints: 2..t complainers against one dealer, some answered correctly and some not at all /
+		// wrongly (every assignment pattern, the unanswered one first, in the middle, last): whichever complaint an
+		// implementation looks at last, the dealer is disqualified by everybody ----
+		for _, proto := range []string{"qual", "joint"} {
+			for k := 0; k < 8; k++ {
+				t := 2 + k%2
+				n := 2*t + 1 + r.IntN(2)
+				b := r.IntN(n)
+				in := simBase(r, proto, n, t, b, []int{b})
+				nc := 2 + r.IntN(t-1)
+				victims := simSubset(r, len(in.Honest), nc)
+				badAt := k % nc
+				for i, vi := range victims {
+					v := in.Honest[vi]
+					in.Byz[0].Shares[key(v)] = pick(r, []string{"bad", "omit", "badlen", "zero"})
+					in.Byz[0].Answers[key(v)] = "ok"
+					if i == badAt || (k >= 4 && r.IntN(3) == 0) {
+						in.Byz[0].Answers[key(v)] = pick(r, []string{"omit", "omit", "bad"})
+					}
+				}
+				in.Hint = pick(r, simHints)
+				cs = append(cs, simFinish("mixed-complaints-"+proto, in))
+			}
 		}
 		// ---- the same small-order shift in Feldman-VSS-Qual: only the participant with evaluation point 13 is simulated,
 		// its share matches, nobody complains, and yet the dealer must be disqualified for its vector ----
